@@ -5,6 +5,7 @@ import (
 	"fmt"
 	"math/big"
 	"os"
+	"strings"
 	"time"
 
 	"github.com/markkurossi/mpc/circuit"
@@ -523,7 +524,25 @@ func c04Stream(cs *vrt.Case, r *vrt.Rng) {
 	gIn, eIn := p.gIn(r), p.eIn(r)
 	src, srcName := p.src, ""
 	var progDesc any = (cs.Idx / 6) % len(c04StreamPrograms)
-	if cs.Idx%12 == 9 || cs.Idx%12 == 4 {
+	if cs.Idx%12 == 10 || cs.Idx%12 == 3 && cs.Idx%24 != 3 {
+		// "operator then AND" family: the result of one operator or builtin (every
+		// streamed builder writes straight into its output wires) feeds AND gates:
+		// a result wire the builder left undriven, or drove with a degenerate
+		// label pair, shows in the rows of those gates
+		W := vrt.Pick(r, []int{8, 16, 32, 64})
+		ops := []string{"binary.HammingDistance(a, b)", "a * b", "a / (b | 1)", "a - b", fmt.Sprintf("a << %d", r.Range(1, W-1)), "a &^ b", "-a", "a % (b | 1)",
+			"a + b", fmt.Sprintf("a >> %d", r.Range(1, W-1)), "a | b", "a ^ b", "a + 1"}
+		op := ops[(cs.Idx/12)%len(ops)] // every operator in turn (the first eight in a quick run)
+		imp := ""
+		if strings.Contains(op, "binary.") {
+			imp = "import (\n\t\"encoding/binary\"\n)\n\n"
+		}
+		src = fmt.Sprintf("package main\n\n%sfunc main(a uint%d, b uint%d) (uint%d, uint%d, uint%d) {\n\td := %s\n\tvar e uint%d\n\tif a > b {\n\t\te = d\n\t} else {\n\t\te = b\n\t}\n\treturn d & b, d * (b | 1), e\n}\n", imp, W, W, W, W, W, op, W)
+		gIn, eIn = []string{"0x" + r.Big(W).Text(16)}, []string{"0x" + r.Big(W).Text(16)}
+		progDesc = "operator-then-AND family: " + op
+		cs.Count("sessions_stream_operator_then_and", 1)
+		cs.Seen("operators_streamed_into_and_gates", strings.Fields(strings.ReplaceAll(op, "(", " "))[0]+" "+op)
+	} else if cs.Idx%12 == 9 || cs.Idx%12 == 4 {
 		// a program around a harness-generated native circuit file (all five
 		// gate types, outputs that feed later gates), see c05NativeProgram
 		dir, file, nsrc, g, e, err := c05NativeProgram(r)
